@@ -130,9 +130,19 @@ class HierDictDocument(DictDocument):
             if self.ignore_wrappers:
                 doc = self._get_body_doc(doc, class_name)
 
-            result_message = self._doc_to_object(ctx, body_class, doc,
+            if issubclass(body_class, ComplexModelBase):
+                result_message = self._doc_to_object(ctx, body_class, doc,
                                                                  self.validator)
-            self._check_in_object(body_class, result_message, doc)
+                self._check_in_object(body_class, result_message, doc)
+
+            else:
+                # a bare method whose only argument is a primitive
+                if not self.ignore_wrappers and isinstance(doc, dict):
+                    doc = self._get_body_doc(doc, class_name)
+
+                result_message = self._from_dict_value(ctx, class_name,
+                                               body_class, doc, self.validator)
+
             ctx.in_object = result_message
 
         else:
